@@ -22,7 +22,11 @@ RULE = ("random circuits of 1-4 persistent-capable blocks (Input, Counter, Timer
         "sync_state on/off, initial storage with stale/unused/reserved entries; histories of events (accepted, "
         "rejected, parameter errors, unknown events, failing handlers), timer firings and time steps, start modes "
         "ok/aborted-before/start()-raises/initialisation fails; a deep copy of the storage after init, after "
-        "every event and timer firing, after stop and after a failed start; from the snapshots (all of them in "
+        "every event and timer firing, after stop and after a failed start; in half of the circuits an extra block "
+        "has an asynchronous clean-up of 0.25-5 s during which timers go on firing: snapshot when the clean-up "
+        "starts (states + stop time must be there already) and when it ends, the application's shutdown() "
+        "completed, or cancelled before/at/after the end of the clean-up (the task awaiting shutdown() is "
+        "cancelled, as wait_for(shutdown(), timeout) does); from the snapshots (all of them in "
         "the thorough tier, a random third in quick) a second circuit is started after a downtime "
         "shorter/equal/longer than the remaining timer with expiration in {None, 0, <0, shorter, equal, longer "
         "than the age of the stop time stamp}, blocks dropped or made non-persistent; compared with the Lean "
@@ -41,6 +45,9 @@ ASSUMPTIONS = [
     "storage back-end with value semantics (deep copy on write and on read, like shelve)",
     "Counter values are ints; FSM callbacks are scripts (cond: yes/no/state!=s/InputExp.cond_put/raise; enter: "
     "nop/sdata[k]=v/raise); no chained events, no zero durations, no per-event duration (C03/C04 cover these)",
+    "events during the clean-up of a FAILED start-up are not modelled (circuits with the slow clean-up block are "
+    "generated so that their initialisation succeeds); after an interrupted clean-up the life ends (FSM timers "
+    "that were not cancelled are not followed any further)",
     "reading of 'nothing is written if start-up failed' = abort before the start or a failing start() "
     "(DESIGN.md 6); a failing initialisation rewrites the entries and is compared with the model only",
 ]
@@ -143,6 +150,20 @@ class Failer(edzed.SBlock):
 
     def init_regular(self):
         self.set_output(None)
+
+
+class SlowStop(edzed.AddonAsync, edzed.SBlock):
+    """a block with an asynchronous clean-up of a given (virtual) duration"""
+    life = None
+    delay = 0.0
+
+    def init_regular(self):
+        self.set_output(None)
+
+    async def stop_async(self):
+        self.life.on_cleanup()
+        await asyncio.sleep(self.delay)
+        self.life.cleanup_finished = True
 
 
 def _check(value):
@@ -276,6 +297,11 @@ class Life:
         self.loop = None
         self.aborted_seen = False
         self.bad = {}            # block index -> snapshot index just before its handler error
+        self.slow = None         # duration (us) of the asynchronous clean-up of an extra block, or None
+        self.cleanup = False     # the asynchronous clean-up is in progress
+        self.started_ok = False
+        self.cleanup_finished = False
+        self.t_begin = None      # instant the stop began (when it can be observed)
 
     # ---- observation
 
@@ -314,7 +340,7 @@ class Life:
         elif c._simtask is not None and c._simtask.done():
             ph = 'stopped'
         elif c.error is not None:
-            ph = 'aborted'
+            ph = 'stopping' if self.cleanup else 'aborted'
         else:
             ph = 'idle'
         ts = c.persistent_ts
@@ -341,7 +367,7 @@ class Life:
 
     def snap(self, label, **extra):
         self.snaps.append({'label': label, 't': self.world.now_us(), 'store': copy.deepcopy(dict(self.store)),
-                           'obs': self.obs(), **extra})
+                           'obs': self.obs(), 'in_cleanup': self.cleanup, **extra})
 
     def cal_table(self, configs):
         if self.family == 'a':
@@ -363,6 +389,9 @@ class Life:
         self.blocks = [make_block(spec, self) for spec in self.specs]
         if mode == 'raises' and not failer_first:
             Failer('zz_failer')
+        if self.slow is not None:
+            sl = SlowStop('zz_slow')
+            sl.life, sl.delay = self, self.slow / 1e6
         for idx, blk in enumerate(self.blocks):
             self.wrap(idx, blk)
         self.lines.append('persist reset')
@@ -416,8 +445,24 @@ class Life:
 
     # ---- running
 
-    def run(self, t0, mode, failer_first, ops, t_stop, configs):
+    def on_cleanup(self):
+        """called when the asynchronous clean-up starts: the states and the stop time were saved in the
+        same instant, before the first await of the clean-up"""
+        if not self.started_ok or self.cleanup:
+            return
+        self.cleanup = True
+        stamp = self.store.get(STOPKEY) if STOPKEY in self.store else None
+        now = self.world.now_us()
+        self.t_begin = now if self.family == 'a' else (us_of(stamp) if isinstance(stamp, float) else now)
+        self.lines.append(f'persist stopbegin {self.t_begin}')
+        self.trace.append(self.render())
+        self.snap('stopbegin', t_begin=self.t_begin, t_hook=now)
+        self.in_call = False         # timers go on firing during the clean-up
+
+    def run(self, t0, mode, failer_first, ops, t_stop, configs, slow=None, stop=None):
         """whole life; returns nothing, fills lines/trace/snaps"""
+        self.slow = slow
+        stop = stop or {'kind': 'full'}
         self.configs = configs
         self.world.wall_us = t0
         self.build(mode, failer_first)
@@ -449,6 +494,7 @@ class Life:
             self.lines.append(f'persist start {start_now} {mname} {start_cal}')
             self.trace.append(self.render())
             self.snap('init')
+            self.started_ok = True
             self.in_call = False
             stopped = False
             for op in ops:
@@ -468,6 +514,7 @@ class Life:
                     self.do_event(op)
             self.in_call = True
             t_before = self.world.now_us()
+            complete = True
             if self.circuit.error is None:
                 target = t_stop - self.world.wall_us + self.world.loop_base
                 if target > loop.now_us:
@@ -477,20 +524,49 @@ class Life:
                     if self.circuit.error is None:
                         self.lines.append(f'persist adv {self.world.now_us() if self.family == "a" else t_stop}')
                         self.trace.append(self.render())
+            if self.circuit.error is None:
                 t_before = self.world.now_us()
-                regular = self.circuit.error is None      # (a timer event may have aborted the circuit meanwhile)
-                try:
-                    await c.shutdown()
-                except BaseException:
-                    pass
+                regular = True
+                if self.slow is None:
+                    try:
+                        await c.shutdown()
+                    except BaseException:
+                        pass
+                else:
+                    # the application waits for the shutdown in a task of its own ...
+                    self.in_call = False
+                    waiter = asyncio.create_task(c.shutdown())
+                    if stop['kind'] == 'cancel':
+                        # ... and gives up after a while: wait_for(circuit.shutdown(), timeout) -> timeout;
+                        # cancelling the waiter cancels the simulation task it awaits
+                        if stop['after'] == 0:
+                            # in the very next loop iteration: the second cancellation meets the first one before
+                            # the simulation task has run (asyncio merges them, the clean-up is not interrupted)
+                            await asyncio.sleep(0)
+                        else:
+                            await vtime.advance_to(loop, loop.now_us + stop['after'])
+                        waiter.cancel()
+                    await asyncio.gather(waiter, simtask, return_exceptions=True)
+                    complete = self.cleanup_finished
+                    self.in_call = True
             else:
+                # (a handler error: the simulation task stops by itself)
+                self.in_call = False
                 await asyncio.wait([simtask])
+                self.in_call = True
                 regular = False
             stamp = self.store.get(STOPKEY) if STOPKEY in self.store else None
-            tstop = us_of(stamp) if isinstance(stamp, float) and (self.family == 'b' or not regular) else t_before
-            self.lines.append(f'persist stop {tstop}')
+            if self.cleanup:
+                # the beginning of the stop was seen by the clean-up hook
+                self.lines.append(f'persist stopend {self.world.now_us()} {int(complete)}')
+                t_begin = self.t_begin
+            else:
+                tstop = us_of(stamp) if isinstance(stamp, float) and (self.family == 'b' or not regular) else t_before
+                self.lines.append(f'persist stop {tstop}')
+                t_begin = t_before if regular and self.family == 'a' else None
             self.trace.append(self.render())
-            self.snap('stop', t_before=t_before, t_after=self.world.now_us(), regular=regular)
+            self.snap('stop', t_before=t_before, t_after=self.world.now_us(), regular=regular, t_begin=t_begin,
+                      complete=complete, had_cleanup=self.cleanup)
             if not simtask.done():
                 await asyncio.wait([simtask])
             simtask.exception() if not simtask.cancelled() else None
@@ -751,10 +827,31 @@ def _gen_scenario(rng, tier, family):
                                 'drop': [i for i in range(nb) if rng.random() < 0.07],
                                 'nopersist': [i for i in range(nb) if rng.random() < 0.07],
                                 'sync': [rng.random() < 0.8 for _ in range(nb)]})
+    # an extra block with an asynchronous clean-up of duration `slow`; the application's shutdown() may be
+    # cancelled `after` us (before or after the end of the clean-up)
+    scn['slow'] = None
+    scn['stop'] = {'kind': 'full'}
+    if scn['mode'] == 'ok' and rng.random() < 0.5:
+        unit = TICK if family == 'a' else SEC
+        scn['slow'] = rng.choice([16, 64, 100, 200, 320] if family == 'a' else [1, 2]) * unit
+        if rng.random() < 0.6:
+            r = rng.random()
+            after = (max(unit, int(scn['slow'] * rng.choice([0.25, 0.5, 0.75])) // unit * unit) if r < 0.7
+                     else (0 if r < 0.8 else (scn['slow'] if r < 0.9 else scn['slow'] + unit)))
+            scn['stop'] = {'kind': 'cancel', 'after': after}
+        for sidx in (-1, -2):
+            if family == 'a':
+                down = rng.choice(DOWNV)
+            else:
+                down = rng.choice([5, 40, 3 * 3600, 2 * 86400 + 3600]) * SEC
+            scn['restarts'].append({'snap': sidx, 'down': down, 'exp': [rng.choice(EXPV) for _ in range(nb)],
+                                    'drop': [], 'nopersist': [], 'sync': [rng.random() < 0.8 for _ in range(nb)]})
     scn['_windows'] = _windows(scn)
     for i in range(nb):
         for _ in range(50):
             spec = _gen_block(rng, i, family)
+            if scn['slow'] is not None and spec['kind'] == 'input' and spec['initdef'] is None:
+                continue        # (keeps the start-up from failing: the clean-up of a failed start is not modelled)
             if spec['kind'] not in ('timedate', 'timespan') or _cfg_stable(spec['kind'], spec['cfg'], scn['_windows']):
                 break
         else:
@@ -820,8 +917,29 @@ def _defect8_seed():
                          {'snap': 4, 'down': 'long', 'exp': ['long'], 'drop': [], 'nopersist': [], 'sync': [True]}]}
 
 
+def _cancelled_shutdown_seed(first_run):
+    """a persistent Input (expiration 60 s) and a Timer, a block with 30 s of asynchronous clean-up, the
+    application gives up waiting for shutdown() after 10 s; restart 100 s later"""
+    t0 = WALL0
+    blocks = [{'kind': 'input', 'name': 'b0', 'initdef': [0], 'p': True, 's': True, 'exp': None},
+              {'kind': 'timer', 'name': 'b1', 'restartable': True, 't_on': 20 * SEC, 't_off': None, 'p': True,
+               's': False, 'exp': None}]
+    store0 = [] if first_run else [[STOPKEY, ['ts', t0 - 3600 * SEC]], ["<Input 'b0'>", ['val', 3]]]
+    return {'family': 'a', 'blocks': blocks, 't0': t0, 'mode': 'ok', 'failer_first': False,
+            'ops': [['adv', t0 + SEC], ['ev', 0, 'put', [7]], ['ev', 1, 'n.start', None]],
+            't_stop': t0 + 15 * SEC, 'store0': store0, 'slow': 30 * SEC, 'stop': {'kind': 'cancel', 'after': 10 * SEC},
+            'restarts': [{'snap': -1, 'down': 100 * SEC, 'exp': [60 * SEC, 'none'], 'drop': [], 'nopersist': [],
+                          'sync': [True, True]},
+                         {'snap': -1, 'down': 50 * SEC, 'exp': [60 * SEC, 'none'], 'drop': [], 'nopersist': [],
+                          'sync': [True, True]},
+                         {'snap': -2, 'down': 64 * TICK, 'exp': ['long', 'short'], 'drop': [], 'nopersist': [],
+                          'sync': [True, False]}]}
+
+
 def scenarios(rng, tier):
     yield _defect8_seed()
+    yield _cancelled_shutdown_seed(True)
+    yield _cancelled_shutdown_seed(False)
     n = 3000 if tier == 'quick' else 16000
     for i in range(n):
         yield _gen_scenario(rng, tier, 'b' if i % 6 == 5 else 'a')
@@ -884,7 +1002,9 @@ def _resolve_restart(r, snap, specs1, family):
     margin = TICK if family == 'a' else 2 * SEC
     exps = []
     for v in r['exp']:
-        if v == 'none':
+        if isinstance(v, int):
+            exps.append(v)
+        elif v == 'none':
             exps.append(None)
         elif v == 'zero':
             exps.append(0)
@@ -920,7 +1040,8 @@ def _run_impl(scn, world):
         store[k] = dec_entry(e)
     store0 = copy.deepcopy(dict(store))
     first = Life(world, scn['blocks'], store, family, lines, trace)
-    first.run(scn['t0'], scn['mode'], scn['failer_first'], scn['ops'], scn['t_stop'], configs)
+    first.run(scn['t0'], scn['mode'], scn['failer_first'], scn['ops'], scn['t_stop'], configs,
+              slow=scn.get('slow'), stop=scn.get('stop'))
     # reference: a fresh start without storage content (what "normal initialisation" gives)
     restarts = []
     for r in scn['restarts']:
@@ -944,7 +1065,8 @@ def _run_impl(scn, world):
             st2[k] = v
         life = Life(world, specs2, st2, family, lines, trace)
         horizon = now2 + (260 * TICK if family == 'a' else 3 * SEC)
-        life.run(now2, 'ok', False, [['adv', now2 + (100 * TICK if family == 'a' else SEC)]], horizon, configs)
+        life.run(now2, 'ok', False, [['adv', now2 + (100 * TICK if family == 'a' else SEC)]], horizon, configs,
+                 slow=scn.get('slow'))
         ref = Life(world, [dict(s, p=False) for s in specs2], Storage(), family, [], [])
         ref.run(now2, 'ok', False, [], now2, configs)
         restarts.append({'r': r, 'snap_index': r['snap'] % len(first.snaps), 'down': down, 'now2': now2, 'exps': exps,
@@ -954,6 +1076,11 @@ def _run_impl(scn, world):
     tags = [f'family={family}', f'mode={scn["mode"]}', f'end={first.snaps[-1]["label"]}' if first.snaps else 'end=none',
             f'blocks={len(scn["blocks"])}', f'restarts={min(len(restarts), 8)}' + ('+' if len(restarts) > 8 else '')]
     tags += sorted({f'kind={b["kind"]}' for b in scn['blocks']})
+    tags.append('cleanup=' + ('none' if scn.get('slow') is None else scn.get('stop', {}).get('kind', 'full')))
+    if first.snaps and first.snaps[-1]['label'] == 'stop' and not first.snaps[-1].get('complete', True):
+        tags.append('stop-interrupted')
+    if any(s['label'] == 'fire' and s.get('in_cleanup') for s in first.snaps):
+        tags.append('timer-fired-during-cleanup')
     if first.bad:
         tags.append('handler-error')
     if any(s['label'] == 'fire' for s in first.snaps):
@@ -1035,6 +1162,7 @@ def oracle(scn, res):
                 got = _entry_view(spec, first[0]['store'].get(keys[i], KeyError))
                 if not _same(want, got):
                     viol('storage_refines_state', f'after init: {keys[i]} holds {got!r}, block state {want!r}', at='init')
+    begin_snap = None
     for n, s in enumerate(first[1:], start=1):
         if s['label'] in ('ev', 'fire'):
             i = s['blk']
@@ -1050,21 +1178,60 @@ def oracle(scn, res):
                     viol('storage_refines_state',
                          f"after {s['label']} #{n} ({s.get('op')}, {s['res']}): {keys[i]} holds {got!r}, block state {want!r}",
                          at=s['label'], rejected=s['res'] == 'ret b0')
+        if s['label'] == 'stopbegin':
+            # the clean-up starts: states and the time stamp of THIS stop were saved before its first await
+            begin_snap = s
+            stamp = s['store'].get(STOPKEY)
+            hook = s['t_hook']
+            if not isinstance(stamp, float) or not (us_of(stamp) == hook if family == 'a' else hook - 1000 <= us_of(stamp) <= hook):
+                viol('stop_saves_all_with_timestamp',
+                     f'the clean-up starts at {hook} us: the storage holds the stop time {stamp!r}', at='cleanup-start')
+            for i, spec in enumerate(specs):
+                o = s['obs'][i]
+                if spec['p'] and i not in frozen and o['persistent']:
+                    saves.setdefault(i, []).append((n, o))
+                    want = _expected_entry(spec, o)
+                    got = _entry_view(spec, s['store'].get(keys[i], KeyError))
+                    if not _same(want, got):
+                        viol('stop_saves_all_with_timestamp',
+                             f'the clean-up starts: {keys[i]} holds {got!r}, block state {want!r}', at='cleanup-start')
         if s['label'] == 'stop' and first[0]['label'] == 'init':
             stamp = s['store'].get(STOPKEY)
             lo, hi = s['t_before'], s['t_after']
-            if not s['regular']:
-                lo = first[n - 1]['t']
-            if not isinstance(stamp, float) or not lo <= us_of(stamp) <= hi:
-                viol('stop_saves_all_with_timestamp', f'stop time stamp {stamp!r}, stop window [{lo}, {hi}] us')
-            prev = first[n - 1]['obs']
-            for i, spec in enumerate(specs):
-                if spec['p'] and i not in frozen and prev[i]['persistent']:
-                    saves.setdefault(i, []).append((n, prev[i]))
-                    want = _expected_entry(spec, prev[i])
-                    got = _entry_view(spec, s['store'].get(keys[i], KeyError))
-                    if not _same(want, got):
-                        viol('stop_saves_all_with_timestamp', f'after stop: {keys[i]} holds {got!r}, block state {want!r}')
+            how = 'interrupted' if not s.get('complete', True) else 'complete'
+            if s.get('had_cleanup') and begin_snap is not None:
+                hook = begin_snap['t_hook']
+                if not isinstance(stamp, float) or not (us_of(stamp) == hook if family == 'a' else hook - 1000 <= us_of(stamp) <= hook):
+                    viol('stamp_of_this_stop',
+                         f'after the stop ({how} clean-up, ended at {s["t_after"]} us) the storage holds the stop time '
+                         f'{stamp!r}; this stop began at {hook} us', cleanup=how)
+            elif s['regular'] and family == 'a':
+                if not isinstance(stamp, float) or us_of(stamp) != s['t_before']:
+                    viol('stamp_of_this_stop', f'stop time stamp {stamp!r}, the stop began at {s["t_before"]} us', cleanup='none')
+            else:
+                if not s['regular']:
+                    lo = first[n - 1]['t']
+                if not isinstance(stamp, float) or not lo <= us_of(stamp) <= hi:
+                    viol('stop_saves_all_with_timestamp', f'stop time stamp {stamp!r}, stop window [{lo}, {hi}] us')
+            old = store0.get(STOPKEY)
+            if isinstance(old, float) and us_of(old) <= scn['t0'] and isinstance(stamp, float) and stamp < old:
+                viol('stamp_of_this_stop', f'stop time stamp {stamp!r} is older than the previous one {old!r}')
+            if s.get('had_cleanup') and begin_snap is not None:
+                # blocks without sync_state keep what was saved when the stop began
+                for i, spec in enumerate(specs):
+                    if spec['p'] and not spec['s'] and i not in frozen:
+                        if not _same(s['store'].get(keys[i], KeyError), begin_snap['store'].get(keys[i], KeyError)):
+                            viol('stop_saves_all_with_timestamp',
+                                 f'{keys[i]} (sync_state off) changed during the clean-up: {s["store"].get(keys[i])!r}')
+            else:
+                prev = first[n - 1]['obs']
+                for i, spec in enumerate(specs):
+                    if spec['p'] and i not in frozen and prev[i]['persistent']:
+                        saves.setdefault(i, []).append((n, prev[i]))
+                        want = _expected_entry(spec, prev[i])
+                        got = _entry_view(spec, s['store'].get(keys[i], KeyError))
+                        if not _same(want, got):
+                            viol('stop_saves_all_with_timestamp', f'after stop: {keys[i]} holds {got!r}, block state {want!r}')
         for i, e in frozen.items():
             if not _same(s['store'].get(keys[i], KeyError), e):
                 viol('frozen_after_handler_error',
@@ -1079,6 +1246,13 @@ def oracle(scn, res):
         snap = first[sidx]
         now2 = rs['now2']
         stamp = rs['store_in'].get(STOPKEY)
+        # a snapshot taken at or after the beginning of a stop: the age of the saved state is measured from the
+        # instant THAT stop began, whether its clean-up was completed or interrupted
+        if family == 'a' and (snap['label'] in ('stopbegin', 'stop') or snap.get('in_cleanup')):
+            if begin_snap is not None and sidx >= first.index(begin_snap):
+                stamp = begin_snap['t_hook'] / 1e6
+            elif snap['label'] == 'stop' and snap.get('t_begin') is not None:
+                stamp = snap['t_begin'] / 1e6
         o2s = rs['snaps'][0]['obs']
         refs = rs['ref'][0]['obs'] if rs['ref'] and rs['ref'][0]['label'] == 'init' else None
         st2 = rs['snaps'][0]['store']
